@@ -46,7 +46,7 @@ def gen_case(rng: random.Random, tier: str):
         ops = ["parse"]
         if rng.random() < 0.5:
             ops.append(rng.choice(["dumps", "deref", "parse2"]))
-        threads.append({"data_seed": rng.getrandbits(32), "data": None, "ops": ops})
+        threads.append({"data_seed": rng.getrandbits(32), "data": None, "ops": ops, "root": rng.randrange(8)})
     return {"cfg": cfg, "defs": defs, "threads": threads, "sched_seed": rng.getrandbits(32),
             "n_sched": 24 if tier == "quick" else 60, "trace_enum": rng.random() < 0.3, "opcodes": False,
             "schedules": None, "order": rng.sample(range(nthreads), nthreads)}
@@ -71,6 +71,14 @@ def _walk_pointers(v, out, depth=0):
     elif isinstance(v, list):
         for e in v[:4]:
             _walk_pointers(e, out, depth + 1)
+
+
+def _root_of(cs, case, th):
+    names = [s_["name"] for s_ in case["defs"]["structs"]]
+    # most threads use the last structure (which uses the others); some use another top-level structure that shares
+    # nested types, enums and array types with it
+    r = th.get("root", 0)
+    return getattr(cs, names[-1] if r < 5 else names[r % len(names)])
 
 
 def make_script(root, th):
@@ -116,10 +124,11 @@ def run_case(case, stats):
     for th in case["threads"]:
         if th["data"] is None:
             drng = random.Random(th["data_seed"])
+            troot = _root_of(cs, case, th)
 
-            def p(d):
+            def p(d, troot=troot):
                 s = io.BytesIO(d)
-                root(s)
+                troot(s)
                 return s.tell()
 
             r = gen.accepted_input(drng, p, start_len=24 + drng.randrange(40), stats=stats)
@@ -131,14 +140,14 @@ def run_case(case, stats):
     expected = []
     for th in case["threads"]:
         cs1, root1 = _load(case)
-        expected.append(make_script(root1, th)())
+        expected.append(make_script(_root_of(cs1, case, th), th)())
     lib_root = REPO + "/dissect/cstruct"
     shape = gen.shape_digest(case["defs"])
 
     def execute(preempts):
         cs2, root2 = _load(case)
         sch = Sched(n, preempts, lib_root, trace_enum=case["trace_enum"], opcodes=case["opcodes"], order=case["order"])
-        scripts = [make_script(root2, th) for th in case["threads"]]
+        scripts = [make_script(_root_of(cs2, case, th), th) for th in case["threads"]]
         try:
             got = sch.run(scripts)
         except HarnessError as e:
